@@ -126,7 +126,7 @@ CHECKS = {
         'parts': [
             P('props/C14.cpp', 'asan+hook', 'seq-asan-hook', tier_args={'quick': ['--depth', '4', '--copylen', '130'], 'thorough': ['--depth', '5', '--copylen', '600']}),
             P('props/C14.cpp', 'asan', 'seq-asan', tier_args={'quick': ['--depth', '4', '--copylen', '130'], 'thorough': ['--depth', '5', '--copylen', '600']}),
-            P('props/C14.cpp', 'fast', 'seq-fast-sse2', tier_args={'quick': ['--depth', '5'], 'thorough': ['--depth', '6']}),
+            P('props/C14.cpp', 'fast', 'seq-fast-sse2', tier_args={'quick': ['--depth', '5'], 'thorough': ['--depth', '6']}, budget={'thorough': 1500}),  # depth 6 does not finish: levels up to 5 are complete, the 6th is reported as capped
             P('props/C14.cpp', 'fast+avx2', 'copy-avx2', args=['--only', 'copy']),
             P('props/C14.cpp', 'fast+nosimd', 'copy-scalar', args=['--only', 'copy']),
             P('props/C14.cpp', 'asan+avx2', 'copy-asan-avx2', args=['--only', 'copy'], tier_args={'quick': ['--copylen', '130'], 'thorough': ['--copylen', '600']}),
